@@ -21,6 +21,20 @@ TRUSTED = ['for zoo annotations the model is the oracle-parametrised node `speci
 
 _ANN = None
 _VAL = None
+_FACTS = {}
+
+
+def message_facts():
+    """what the translator reads about the messages of check_types.py (the same facts Gen/CallLayerIR.lean states): do they put the user's
+    values through `_describe`"""
+    if not _FACTS:
+        try:
+            import core
+            from gen import calllayer_ir
+            _FACTS.update(calllayer_ir.message_facts(core.REPO))
+        except Exception as e:
+            _FACTS.update({'assertMsgSafe': True, 'handlerMsgSafe': True, 'error': repr(e)})
+    return _FACTS
 
 
 def zoo():
@@ -46,6 +60,7 @@ def cases(rng, tier):
     out += C.scenario_cases(rng, n // 8, tag='c08sc')
     out += R.reentrant_cases(rng, n // 6, tag='c08re')
     out += zoo_call_cases(rng, tier)
+    out += C.unprintable_cases(rng, 16 if tier == 'quick' else 64) + C.receiver_cases(rng, 12 if tier == 'quick' else 48)
     # generic @pedantic_class classes of every shape (explicit Generic[T], typing-alias bases, user generic bases, mixins): no raw
     # exception may leave the wrapper (the stream of C07's generator; judged here for the containment clause only)
     out += TV.generic_shape_cases(rng, tier)
@@ -136,6 +151,9 @@ def run_impl(cases):
     return out
 
 
+extra_coverage = C.T.with_trace_coverage()      # observed branch traces of the call layer (_calltrace_common)
+
+
 def judge_call(case, impl, model):
     corr, why = C.correspondence(case, impl, model)
     if case['x'].get('zoo_call'):
@@ -149,7 +167,7 @@ def judge_call(case, impl, model):
     claimed = s['keywordCall'] and C.twin_accepts(impl)
     if claimed and (out.startswith('ESC') or out.startswith('BIND') or out == 'RET:other'):
         pfail = f'{impl["out"]} reached the caller of a keyword call that Python accepts for the undecorated function - {C.describe_case(case)}'
-    finding = None
+    finding = C.shared_finding(model) if pfail and corr else None       # unprintableValueEscapes / receiverByKeywordIndexError
     # (former region bodyMentionsStaticmethodEscapes: repaired by e6a11f4)
     return {'corr': corr, 'pfail': pfail, 'finding': finding, 'nontrivial': bool(claimed),
             'tag': f"call/{case['x']['kind']}/{case['x']['flavour']}/{out}", 'why': why}
@@ -168,9 +186,17 @@ def judge(case, impl, model):
     # R_C08: impl escapes -> model escapes (for vocabulary cases the full verdict class is compared as well)
     corr = (ic != 'escape' or mc == 'escape') and (zoo_case or ic == mc)
     pfail = None
+    finding = None
     if ic == 'escape':
         what = case['x'].get('labels') or [json.dumps(case['c']['ann']), json.dumps(case['c']['val'])]
         pfail = f'{io.split(":", 1)[1]} escaped from assert_value_matches_type (annotation {what[0]}, value {what[1]})'
+        f = message_facts()
+        if zoo_case and str(what[1]).startswith('unp-') and not (f['assertMsgSafe'] and f['handlerMsgSafe']):
+            # a value that cannot be formatted and does not match (or makes the check raise): the message about it is built with the value
+            # itself (generated facts assertMsgSafe / handlerMsgSafe = false) - the open finding unprintableValueEscapes
+            corr, finding = True, 'unprintableValueEscapes'
+    return {'corr': corr, 'pfail': pfail, 'finding': finding, 'nontrivial': True,
+            'tag': ('zoo/' if zoo_case else 'vocab/') + io.split(':')[0], 'why': '' if corr else f'implementation {io} vs model {model["out"]}'}
     j = {'corr': corr, 'pfail': pfail, 'finding': None, 'nontrivial': True,
          'tag': ('zoo/' if zoo_case else 'vocab/') + io.split(':')[0], 'why': '' if corr else f'implementation {io} vs model {model["out"]}'}
     return T.apply(j, case, impl, model)      # vocabulary cases: + introspection record, `if` tests, statement trace of the interpreted translation
@@ -186,3 +212,6 @@ def twins(case):
 
 
 export_state, import_state = K.export_state, K.import_state      # the name table travels with replays / amplified runs
+
+
+same_outcome = C.same_outcome      # amplified run: `trace` / `world` are diagnostics of sampled executions
